@@ -1,3 +1,4 @@
+pub mod attempt;
 pub mod combinators;
 pub mod filter;
 pub mod outline;
